@@ -6,6 +6,8 @@ VERUS_UNITS = {
     'helper': 'build_helper.rs: every BuildHelper fn, VacantIter::next, ListItem accessors; sorted circular vacant list invariant; no assert/unwrap/index/overflow can fail',
     'build_bw': 'bytewise/builder.rs init_array, find_base, check_valid_base, extend_array, remove_invalid_checks, build_double_array + State setters + intpack: stages A+B: no assert/debug_assert/unwrap/index/arithmetic can fail for any num_free_blocks >= 1 and any tree-shaped NFA; result satisfies da_safe (len % 256 == 0, base < len, fail < len); and exists idmap. bw_encodes: every NFA edge is an array edge, the array has NO other edge out of a state slot (distinct BASE values + CHECK of every free slot sanitised by remove_invalid_checks against an unused BASE of its block, or the block is full and then has no free slot by counting), fail/output_pos are copied through idmap',
     'wrap_bw': 'bytewise/builder.rs build_sparse_nfa + build_with_values (plus everything they call: NfaBuilder::new/add, build_double_array and the helper, re-verified in the same unit; build_fails/build_fails_leftmost/build_outputs are external_body stubs carrying the ASSUMED NFA-stage contract): Ok(pma) => the collection is valid (non-empty, no empty pattern, no two equal patterns) and pma satisfies the precondition of every search entry point (bw_wf + outs_ok) and num_states + 1 == number of trie states, each of which is a non-empty prefix of a registered pattern, and the array has at least that many elements; Err(InvalidArgument) => empty collection / empty or over-long pattern; Err(DuplicatePattern) => two equal patterns; the caller-supplied collection is a finite deterministic stream (into_lawful) of fewer than usize::MAX items',
+    'wrap_cw': 'charwise/builder.rs build_original_nfa_and_mapper + build_with_values and charwise/mapper.rs CodeMapper::new (plus everything they call, re-verified in the same unit; the NFA fail/output passes are external_body stubs carrying the ASSUMED NFA-stage contract): the char-wise counterpart of wrap_bw; additionally the mapper built from the character frequencies covers every label of the trie with a distinct code below alphabet_size (the precondition of the char-wise build_double_array), frequency counters do not overflow given fewer than 2^32 characters in the collection',
+    'mapper_cw': 'charwise/mapper.rs CodeMapper::new alone: characters with non-zero frequency get pairwise distinct codes below alphabet_size, all others INVALID_CODE; no unwrap/index can fail for tables of at most 0x110000 entries',
     'link_bw': 'pure lemma unit over the real byte-wise State/NfaBuilder types: bw_encodes (postcondition of bytewise build_double_array) + nfa_tree + nfa_links + da_safe  ==>  bw_wf (precondition of every byte-wise transition function and iterator); the ranking witness is the NFA depth carried through idmap',
     'build_cw': 'charwise/builder.rs init_array, find_base, verify_base, extend_array, build_double_array + charwise State (Default, setters), CodeMapper::get: stages A+B: no panic for any num_free_blocks >= 1 and any tree-shaped NFA whose labels the mapper covers; len % block_len == 0, block_len a power of two >= alphabet size, base < len, fail < len; and exists idmap. cw_encodes: every NFA edge is an array edge, the array has NO other edge out of a state slot, fail/output_pos are copied through idmap',
     'link_cw': 'pure lemma unit over the real char-wise State/NfaBuilder types: cw_encodes (postcondition of charwise build_double_array) + nfa_tree + nfa_links (fail strictly shallower, or dead under leftmost) + the array-shape facts build_cw proves  ==>  cw_wf (precondition of every char-wise transition function and iterator); the ranking witness is the NFA depth carried through idmap',
@@ -23,7 +25,7 @@ VERUS_UNITS = {
 }
 
 # composite units: canary only on the functions the unit adds (the rest is canaried in the units it is composed of)
-CANARY_ONLY = {'wrap_bw': ['build_sparse_nfa', 'build_with_values']}
+CANARY_ONLY = {'wrap_bw': ['build_sparse_nfa', 'build_with_values'], 'wrap_cw': ['build_original_nfa_and_mapper', 'build_with_values']}
 
 KANI_SER = ['ser_u8', 'ser_u16', 'ser_u32', 'ser_u64', 'ser_u128', 'ser_usize', 'ser_i8', 'ser_i16', 'ser_i32', 'ser_i64', 'ser_i128', 'ser_isize', 'ser_empty']
 KANI_HARNESSES = {h: 'little-endian primitive Serializable impl: bytes, size, exact inverse with symbolic tail (full domain)' for h in KANI_SER}
@@ -44,43 +46,43 @@ AC_ASSUMED = ('spec stream over the double array == property-level semantics ove
               'AC-1/AC-2): not proved deductively; the stand-in compares the real iterators with the transcribed statement')
 
 PROPS = {
-    'C01': dict(verus=['search_bw', 'iter_bw', 'build_bw', 'link_bw', 'wrap_bw', 'search_cw', 'utf8', 'iter_cw', 'build_cw', 'link_cw'], kani=[], bounded=True,
+    'C01': dict(verus=['search_bw', 'iter_bw', 'build_bw', 'link_bw', 'wrap_bw', 'search_cw', 'utf8', 'iter_cw', 'build_cw', 'link_cw', 'wrap_cw'], kani=[], bounded=True,
                 chain='FindOverlappingIterator::next refines ovl_stream (P) <- next_state_id_unchecked == delta (P) <- bw_wf/cw_wf (P: link_bw, link_cw) <- encodes, no spurious edge (P: build_bw, build_cw) <- NFA-stage contract nfa_tree/nfa_links (B); ovl_stream == sem_overlapping (B)',
                 assumed=[NFA_ASSUMED, DA_ASSUMED, AC_ASSUMED]),
-    'C02': dict(verus=['search_bw', 'iter_bw', 'build_bw', 'link_bw', 'wrap_bw', 'search_cw', 'utf8', 'iter_cw', 'build_cw', 'link_cw'], kani=[], bounded=True,
+    'C02': dict(verus=['search_bw', 'iter_bw', 'build_bw', 'link_bw', 'wrap_bw', 'search_cw', 'utf8', 'iter_cw', 'build_cw', 'link_cw', 'wrap_cw'], kani=[], bounded=True,
                 chain='FindIterator::next refines find_stream incl. restart at root (P); rest as C01',
                 assumed=[NFA_ASSUMED, DA_ASSUMED, AC_ASSUMED]),
-    'C03': dict(verus=['search_bw', 'iter_bw', 'build_bw', 'link_bw', 'wrap_bw', 'search_cw', 'build_cw', 'link_cw', 'lm_cw'], kani=[], bounded=True,
+    'C03': dict(verus=['search_bw', 'iter_bw', 'build_bw', 'link_bw', 'wrap_bw', 'search_cw', 'build_cw', 'link_cw', 'wrap_cw', 'lm_cw'], kani=[], bounded=True,
                 chain='LestmostFindIterator::next refines lm_stream (P, byte-wise) over an array proved to encode the NFA (P: build_bw, link_bw; char-wise build_cw, link_cw); char-wise str-based LestmostFindIterator::next refines cwl_stream (P: lm_cw); dead-fail construction in build_fails_leftmost: B',
                 assumed=[NFA_ASSUMED, DA_ASSUMED, AC_ASSUMED]),
-    'C04': dict(verus=['search_bw', 'iter_bw', 'build_bw', 'link_bw', 'wrap_bw', 'search_cw', 'build_cw', 'link_cw', 'lm_cw'], kani=[], bounded=True,
+    'C04': dict(verus=['search_bw', 'iter_bw', 'build_bw', 'link_bw', 'wrap_bw', 'search_cw', 'build_cw', 'link_cw', 'wrap_cw', 'lm_cw'], kani=[], bounded=True,
                 chain='as C03; shadowing at insertion (B)',
                 assumed=[NFA_ASSUMED, DA_ASSUMED, AC_ASSUMED]),
-    'C05': dict(verus=['search_bw', 'iter_bw', 'build_bw', 'link_bw', 'wrap_bw', 'search_cw', 'utf8', 'iter_cw', 'build_cw', 'link_cw'], kani=[], bounded=True,
+    'C05': dict(verus=['search_bw', 'iter_bw', 'build_bw', 'link_bw', 'wrap_bw', 'search_cw', 'utf8', 'iter_cw', 'build_cw', 'link_cw', 'wrap_cw'], kani=[], bounded=True,
                 chain='FindOverlappingNoSuffixIterator::next refines nosuf_stream with persistent state (P); rest as C01',
                 assumed=[NFA_ASSUMED, DA_ASSUMED, AC_ASSUMED]),
-    'C06': dict(verus=['search_bw', 'iter_bw', 'build_bw', 'link_bw', 'wrap_bw', 'search_cw', 'utf8', 'iter_cw', 'build_cw', 'link_cw', 'ser', 'nfa_add', 'lm_cw'], kani=['num_bytes_labels'], bounded=True,
+    'C06': dict(verus=['search_bw', 'iter_bw', 'build_bw', 'link_bw', 'wrap_bw', 'search_cw', 'utf8', 'iter_cw', 'build_cw', 'link_cw', 'wrap_cw', 'ser', 'nfa_add', 'lm_cw'], kani=['num_bytes_labels'], bounded=True,
                 chain='every returned Match is mk_match(outputs[opos-1], end) (P); outputs[j] == (value_i, |p_i|) (B)',
                 assumed=[NFA_ASSUMED, DA_ASSUMED]),
-    'C07': dict(verus=['search_bw', 'iter_bw', 'build_bw', 'link_bw', 'wrap_bw', 'helper', 'build_cw', 'link_cw', 'search_cw', 'utf8', 'iter_cw', 'ctor_bw', 'ctor_cw', 'lm_cw'], kani=['from_u32', 'utf8_decoder_two_chars'], bounded=True,
+    'C07': dict(verus=['search_bw', 'iter_bw', 'build_bw', 'link_bw', 'wrap_bw', 'helper', 'build_cw', 'link_cw', 'wrap_cw', 'search_cw', 'utf8', 'iter_cw', 'ctor_bw', 'ctor_cw', 'lm_cw'], kani=['from_u32', 'utf8_decoder_two_chars'], bounded=True,
                 chain='every get_unchecked / unwrap_unchecked / from_u32_unchecked in search code and iterators is an index or value obligation under bw_wf / cw_wf (P); the build functions establish da_safe and encodes (P: build_bw, build_cw) and encodes => wf (P: link_bw, link_cw); NFA-stage contract (B)',
                 assumed=[NFA_ASSUMED, DA_ASSUMED]),
-    'C08': dict(verus=['search_cw', 'utf8', 'iter_cw', 'build_cw', 'link_cw', 'lm_cw'], kani=['num_bytes_labels', 'utf8_decoder_two_chars'], bounded=True, chain='char-wise iterators refine streams over their array with decoder end offsets (P: iter_cw, utf8; offsets fall on character boundaries; unmapped characters go to the root: search_cw); label byte lengths and decoder (K); char-wise leftmost iterator (str-based): end offsets are char boundaries, refinement of its spec stream (P: lm_cw); equality of the byte-wise and char-wise streams rests on AC correctness (B)', assumed=[AC_ASSUMED]),
+    'C08': dict(verus=['search_cw', 'utf8', 'iter_cw', 'build_cw', 'link_cw', 'wrap_cw', 'lm_cw'], kani=['num_bytes_labels', 'utf8_decoder_two_chars'], bounded=True, chain='char-wise iterators refine streams over their array with decoder end offsets (P: iter_cw, utf8; offsets fall on character boundaries; unmapped characters go to the root: search_cw); label byte lengths and decoder (K); char-wise leftmost iterator (str-based): end offsets are char boundaries, refinement of its spec stream (P: lm_cw); equality of the byte-wise and char-wise streams rests on AC correctness (B)', assumed=[AC_ASSUMED]),
     'C09': dict(verus=['ser', 'ser_cw'], kani=KANI_SER + ['intpack_u24nu8'], bounded=True,
                 chain='byte-wise: deserialize_unchecked(serialize(a) ++ t) == (a, t) and re-serialisation reproduces the bytes (P: ser, for every V satisfying the trait contract) <- primitive LE impls (K, 13 harnesses); char-wise automaton incl. CodeMapper and the 16-byte State: the same statement (P: ser_cw)',
                 assumed=['user-defined V: satisfies the Serializable trait contract (ser/deser inverse, fixed width < 256 MiB)', 'derived PartialEq is structural']),
-    'C10': dict(verus=['nfa_add', 'helper', 'build_bw', 'wrap_bw', 'build_cw'], kani=['num_bytes_labels'], bounded=True,
-                chain='accept/reject: NfaBuilder::add rejects exactly the empty pattern and every pattern seen before, for every match kind incl. leftmost-first shadowing (P: nfa_add, for both label types); the wrappers that call add in a loop and the index conversion: B. never panics: every assert!/debug_assert!/unwrap/index/arithmetic in build_helper.rs and in the byte-wise double-array construction (bytewise/builder.rs) is a discharged obligation for every num_free_blocks >= 1 and every tree-shaped NFA (P: helper, build_bw); both variants (P: helper, build_bw, build_cw); accept/reject (add), NFA passes, CodeMapper::new and the build wrappers: B',
-                assumed=[NFA_ASSUMED, DA_ASSUMED]),
-    'C11': dict(verus=['search_bw', 'iter_bw', 'build_bw', 'link_bw', 'wrap_bw', 'helper', 'build_cw', 'link_cw'], kani=[], bounded=True,
+    'C10': dict(verus=['nfa_add', 'helper', 'build_bw', 'wrap_bw', 'build_cw', 'mapper_cw', 'wrap_cw'], kani=['num_bytes_labels'], bounded=True,
+                chain='accept/reject: NfaBuilder::add rejects exactly the empty pattern and every pattern seen before, for every match kind incl. leftmost-first shadowing (P: nfa_add, for both label types); build_with_values of both variants: Ok => the collection is non-empty, has no empty pattern and no two equal patterns; Err(InvalidArgument) => empty collection / empty or over-long pattern; Err(DuplicatePattern) => two equal patterns; Err(AutomatonScale) only beyond the size limits (P: wrap_bw, wrap_cw). never panics: every assert!/debug_assert!/unwrap/index/arithmetic in build_helper.rs, both double-array constructions, CodeMapper::new, add and the wrappers is a discharged obligation for every num_free_blocks >= 1 (P: helper, build_bw, build_cw, mapper_cw, nfa_add, wrap_bw, wrap_cw); the fail/output passes (RefCell borrows, index arithmetic) and `build` (index conversion through iterator adapters): B',
+                assumed=[NFA_ASSUMED, DA_ASSUMED, 'caller-supplied collections are finite deterministic streams of fewer than usize::MAX items; char-wise: fewer than 2^32 characters in total (u32 frequency counters)']),
+    'C11': dict(verus=['search_bw', 'iter_bw', 'build_bw', 'link_bw', 'wrap_bw', 'helper', 'build_cw', 'link_cw', 'wrap_cw'], kani=[], bounded=True,
                 chain='the search contracts depend on the array only through encodes/wf, and build_double_array establishes encodes for EVERY num_free_blocks >= 1 (P: build_bw, build_cw incl. the block-dropping path of extend_array and the helper ring, P: helper); equality of results across values then rests on AC correctness (B)',
                 assumed=[NFA_ASSUMED, DA_ASSUMED]),
     'C12': dict(verus=['iter_bw', 'ctor_bw', 'utf8', 'iter_cw', 'ctor_cw'], kani=['utf8_decoder_two_chars'], bounded=True,
                 chain='laziness postconditions of the three standard iterators, both variants (P): m.end == bytes pulled, source drained on None, pulls only via Enumerate::next; decoder pulls exactly the bytes of one character (P+K)', assumed=['byte-wise: find_iter(h) is find_iter_from_iter over U8SliceIterator, whose remaining() == h (P: ctor_bw); char-wise: the str entry points build the same iterators over StrIterator, whose remaining() == the bytes of the str (P: ctor_cw)', 'caller-supplied iterators obey vstd prophetic iterator laws (finite, deterministic)']),
-    'C13': dict(verus=['search_bw', 'iter_bw', 'build_bw', 'link_bw', 'wrap_bw', 'search_cw', 'utf8', 'iter_cw', 'build_cw', 'link_cw', 'ctor_bw', 'ctor_cw', 'lm_cw'], kani=[], bounded=True,
+    'C13': dict(verus=['search_bw', 'iter_bw', 'build_bw', 'link_bw', 'wrap_bw', 'search_cw', 'utf8', 'iter_cw', 'build_cw', 'link_cw', 'wrap_cw', 'ctor_bw', 'ctor_cw', 'lm_cw'], kani=[], bounded=True,
                 chain='decreases rank in the transition loops, decreases |rest| in scanning loops (P); the ranking exists: NFA depth through idmap (P: link_bw, link_cw) given fail links point to shallower states (nfa_links, B); 2n bound: B',
                 assumed=[NFA_ASSUMED, DA_ASSUMED]),
-    'C15': dict(verus=['nfa_add', 'wrap_bw'], kani=[], bounded=True,
-                chain='every trie state >= 2 is walk(prefix) of a non-empty prefix of a registered pattern (P: nfa_add reach_ok), distinct label sequences reach distinct states and every prefix of a registered pattern has a state (P: lemma_walk_inj, lemma_prefix_has_state), shadowed patterns add no state (P: nfa_add); byte-wise build_with_values sets num_states = trie states - 1 and the array has at least as many elements as the trie has states (P: wrap_bw, injective placement); char-wise wrappers, heap_bytes arithmetic and the numeric count: B',
+    'C15': dict(verus=['nfa_add', 'wrap_bw', 'wrap_cw'], kani=[], bounded=True,
+                chain='every trie state >= 2 is walk(prefix) of a non-empty prefix of a registered pattern (P: nfa_add reach_ok), distinct label sequences reach distinct states and every prefix of a registered pattern has a state (P: lemma_walk_inj, lemma_prefix_has_state), shadowed patterns add no state (P: nfa_add); byte-wise build_with_values sets num_states = trie states - 1 and the array has at least as many elements as the trie has states (P: wrap_bw, wrap_cw, injective placement); heap_bytes arithmetic and the numeric count: B',
                 assumed=[NFA_ASSUMED]),
 }
